@@ -82,6 +82,8 @@ class Sched:
         self.lpos = 0
         self.ldecisions = []
         self.line_yields = 0
+        self.line_stalls = 0
+        self.stall_p = 0.0
         self.personality = personality
         self.tasks = []
         self.by_ident = {}
@@ -155,15 +157,22 @@ class Sched:
         self.decisions.append(idx)
         return runnable[idx]
 
+    STALLS = (0.05, 0.3, 1.2, 4.0)
+
     def ldecide(self):
-        """pre-empt at this source line of helpers.py?"""
+        """pre-empt at this source line of helpers.py? 0 = no, -1 = yield the baton,
+        dt > 0 = the process is descheduled (stalled) for dt simulated seconds"""
         if self.lreplay is not None:
             d = self.lreplay[self.lpos] if self.lpos < len(self.lreplay) else 0
             self.lpos += 1
         else:
-            d = 1 if self.rng.random() < self.line_p else 0
+            d = 0
+            if self.rng.random() < self.line_p:
+                d = -1
+                if self.rng.random() < self.stall_p:
+                    d = self.rng.choice(self.STALLS)
         self.ldecisions.append(d)
-        return bool(d)
+        return d
 
     # -- dispatch -------------------------------------------------------------------
     def _runnable(self):
@@ -308,9 +317,14 @@ def _on_line(code, line):
     me = s.by_ident.get(threading.get_ident())
     if me is None or me.state != "running" or s.cur is not me:
         return None
-    if s.ldecide():
+    d = s.ldecide()
+    if d:
         s.line_yields += 1
-        s.point(f"line:{code.co_name}:{line}")
+        if d > 0:
+            s.line_stalls += 1
+            s.point(f"stall:{code.co_name}:{line}", wake=s.now + d)
+        else:
+            s.point(f"line:{code.co_name}:{line}")
     return None
 
 
@@ -633,6 +647,7 @@ def simulate(desc, rng=None):
               step_cap=desc.get("step_cap", 20000), line_p=desc.get("line_p", 0.0),
               line_decisions=desc.get("line_decisions"))
     s.base_seed = desc.get("seed", 0)
+    s.stall_p = desc.get("stall_p", 0.0)
     s.victim = desc.get("victim")
     _SCHED = s
     gc.collect()  # leftovers of earlier runs in this process are finalised outside the simulation
